@@ -24,6 +24,10 @@ import (
 var defaultErrorHandler = builtin(defaultErrorHandlerFn)
 
 func defaultErrorHandlerFn(intp *Interpreter) error {
+	if len(intp.errors) == 0 {
+		// the handler was called directly, e.g. "errordict /typecheck get exec"
+		return intp.e(eUnregistered, "error handler called without pending error")
+	}
 	return intp.errors[len(intp.errors)-1]
 }
 
